@@ -92,6 +92,11 @@ package resource_division
 // effective ("share") weight of the unsatisfied siblings (closed form). Sums are wrapped in defines so that the same
 // summand evaluated in different states / for different tables is related by pointwise congruence.
 //@ define swSum(S ref, m map[common_info.QueueID]float64) real = sum k in S :: m[k]
+// historical usages are shares of the cluster capacity (never negative); the time-based-fairness factor is clamped to >= 0 by the plugin (proportion.New [kValueNonNegative])
+//@ define usagesNonNeg(qs map[common_info.QueueID]*rs.QueueAttributes, r rs.ResourceName) bool = forall k in qs :: usage(qs[k], r) >= 0.0
+// C09 "every queue with positive effective over-quota weight is satisfied": the effective (share) weight of q is 0 when no unsatisfied sibling has a weight (T == 0) or the formula yields 0
+//@ define zeroEff(q *rs.QueueAttributes, r rs.ResourceName, T real, kv real) bool = T == 0.0 || shareW(q, r, T, kv) == 0.0
+//@ define noClaimant(qs map[common_info.QueueID]*rs.QueueAttributes, r rs.ResourceName, kv real) bool = forall k in qs :: satisfied(qs[k], r) || zeroEff(qs[k], r, totalUnsatW(qs, r), kv)
 //@ define effW(q *rs.QueueAttributes, r rs.ResourceName, T real, kv real) real = ite(satisfied(q, r), 0.0, shareW(q, r, T, kv))
 //@ define effWSum(S ref, qs map[common_info.QueueID]*rs.QueueAttributes, r rs.ResourceName, T real, kv real) real = sum k in S :: effW(qs[k], r, T, kv)
 
@@ -111,6 +116,7 @@ package resource_division
 //@     invariant resourceName == "Memory" ==> forall k in shareWeightsPerQueue :: shareWeightsPerQueue[k] == shareWf(queues[k].Memory.OverQuotaWeight, queues[k].Memory.Usage, totalWeights, kValue)
 //@     invariant resourceName == "GPU" ==> forall k in shareWeightsPerQueue :: shareWeightsPerQueue[k] == shareWf(queues[k].GPU.OverQuotaWeight, queues[k].GPU.Usage, totalWeights, kValue)
 //@     invariant forall k in shareWeightsPerQueue :: shareWeightsPerQueue[k] <= shareWeightsSum
+//@     invariant kValue >= 0.0 && usagesNonNeg(queues, resourceName) ==> forall k in queues :: weight(queues[k], resourceName) == 0.0 ==> shareWeightsPerQueue[k] == 0.0
 //@     invariant totalWeights == totalUnsatW(queues, resourceName)
 //@     invariant shareWeightsSum == swSum(visited, shareWeightsPerQueue)
 //@     invariant shareWeightsSum == effWSum(visited, queues, resourceName, totalWeights, kValue)
@@ -122,6 +128,8 @@ package resource_division
 //@   ensures [unsatisfiedHaveKey] result1 != 0.0 ==> forall k in queues :: !satisfied(queues[k], resourceName) ==> k in result0
 //@   lemma [formula] result1 != 0.0 ==> exists T real :: T > 0.0 && (forall k in queues :: !satisfied(queues[k], resourceName) ==> weight(queues[k], resourceName) <= T) && (forall k in result0 :: result0[k] == shareW(queues[k], resourceName, T, kValue))
 //@   ensures [sumOfWeights] totalUnsatW(queues, resourceName) != 0.0 ==> result1 == swSum(queues, result0)
+//@   ensures [zeroWeightZeroShare] kValue >= 0.0 && usagesNonNeg(queues, resourceName) ==> forall k in queues :: weight(queues[k], resourceName) == 0.0 ==> result0[k] == 0.0
+//@   ensures [zeroSumNoClaimant] result1 == 0.0 ==> noClaimant(queues, resourceName, kValue)
 //@   lemma [sumClosedForm] totalUnsatW(queues, resourceName) != 0.0 ==> result1 == effWSum(queues, queues, resourceName, totalUnsatW(queues, resourceName), kValue)
 //@   ensures [nothingToShare] totalUnsatW(queues, resourceName) == 0.0 ==> result1 == 0.0 && forall k common_info.QueueID :: !(k in result0)
 //@   lemma [formulaClosed] result1 != 0.0 ==> forall k in result0 :: result0[k] == shareW(queues[k], resourceName, totalUnsatW(queues, resourceName), kValue)
@@ -275,6 +283,11 @@ package resource_division
 // (helper "c09b") round share of queue k: the code's `amountToGiveInCurrentRound * (shareWeightsPerQueue[k] / shareWeightsSum)`, and its sum
 //@ define roundShare(m map[common_info.QueueID]float64, k common_info.QueueID, A real, S real) real = max(A * (m[k] / S), 0.0)
 //@ define roundShareSum(V ref, m map[common_info.QueueID]float64, A real, S real) real = sum k in V :: roundShare(m, k, A, S)
+// (helper "c09b") unsatisfied siblings that take part in the weighted rounds (over-quota weight != 0), and their number
+//@ define unsatNZ(q *rs.QueueAttributes, r rs.ResourceName) bool = !satisfied(q, r) && weight(q, r) != 0.0
+//@ define unsatCount(S ref, qs map[common_info.QueueID]*rs.QueueAttributes, r rs.ResourceName) int = count k in S :: unsatNZ(qs[k], r)
+// "less than one unit per unsatisfied queue": left < shares + c strictly, or nothing is owed to anybody (c == 0) and left <= shares
+//@ define lawBound(left real, c int) bool = left < real(c) || (c == 0 && left <= 0.0)
 //@ func divideUpToFairShare
 //@   props C09
 //@   requires validRes(resourceName) && queuesOK(queues) && keyedByUID(queues) && weightsNonNeg(queues, resourceName)
@@ -299,6 +312,9 @@ package resource_division
 //@     invariant totalResourceAmount >= 0.0 ==> amountToGiveInCurrentRound - cur(totalResourceAmount) <= roundShareSum(visited, shareWeightsPerQueue, amountToGiveInCurrentRound, shareWeightsSum)
 //@     invariant totalResourceAmount >= 0.0 ==> roundShareSum(visited, shareWeightsPerQueue, amountToGiveInCurrentRound, shareWeightsSum) * shareWeightsSum == amountToGiveInCurrentRound * swSum(visited, shareWeightsPerQueue)
 //@     invariant fairSum(queues, queues, resourceName) + cur(totalResourceAmount) == old(fairSum(queues, queues, resourceName)) + totalResourceAmount
+//@     invariant forall k in queues :: !(k in visited) ==> ((k in shareWeightsPerQueue) == !satisfied(queues[k], resourceName))
+//@     invariant kValue >= 0.0 && usagesNonNeg(queues, resourceName) ==> forall k in queues :: weight(queues[k], resourceName) == 0.0 ==> shareWeightsPerQueue[k] == 0.0
+//@     invariant totalResourceAmount >= 0.0 && kValue >= 0.0 && usagesNonNeg(queues, resourceName) && !shouldRunAnotherRound ==> lawBound(cur(totalResourceAmount) - amountToGiveInCurrentRound + roundShareSum(visited, shareWeightsPerQueue, amountToGiveInCurrentRound, shareWeightsSum), unsatCount(visited, queues, resourceName))
 //@     invariant queuesOK(queues)
 //@     invariant cur(totalResourceAmount) <= totalResourceAmount
 //@     invariant forall k in queues :: fair(queues[k], resourceName) >= old(fair(queues[k], resourceName)) && fair(queues[k], resourceName) <= max(old(fair(queues[k], resourceName)), capReq(queues[k], resourceName))
@@ -307,10 +323,13 @@ package resource_division
 //@     invariant rrOK(remainingRequested, queues, resourceName)
 //@     invariant rrDistinct(remainingRequested)
 //@     invariant oldTablesKept()
+//@   hint [lastRoundHadNoClaimant] shareWeightsSum == 0.0 ==> noClaimant(queues, resourceName, kValue)
+//@   hint [lastRoundLeftLessThanOneUnitEach] totalResourceAmount >= 0.0 && kValue >= 0.0 && usagesNonNeg(queues, resourceName) ==> remainingAmount == 0.0 || shareWeightsSum == 0.0 || remainingAmount < real(unsatCount(queues, queues, resourceName))
 //@   ensures [remainderTableFresh] remainingRequested != nil && fresh(remainingRequested)
 //@   ensures [nothingTakenBack] remainingAmount <= totalResourceAmount
 //@   ensures [neverNegative] totalResourceAmount >= 0.0 ==> remainingAmount >= 0.0
 //@   ensures [conservation] fairSum(queues, queues, resourceName) + remainingAmount == old(fairSum(queues, queues, resourceName)) + totalResourceAmount
+//@   ensures [priorityLaw] totalResourceAmount >= 0.0 && kValue >= 0.0 && usagesNonNeg(queues, resourceName) ==> remainingAmount == 0.0 || noClaimant(queues, resourceName, kValue) || remainingAmount < real(unsatCount(queues, queues, resourceName))
 //@   ensures [sharesOnlyGrow] forall k in queues :: fair(queues[k], resourceName) >= old(fair(queues[k], resourceName))
 //@   ensures [neverBeyondCappedRequest] forall k in queues :: fair(queues[k], resourceName) <= max(old(fair(queues[k], resourceName)), capReq(queues[k], resourceName))
 //@   ensures [otherResourcesKept] forall k in queues :: otherResKept(queues[k], resourceName)
